@@ -1097,6 +1097,10 @@ package engine
 
 //@ ---------------------------------------------------------------- relational built-ins, deterministic modes (C16)
 
+//@ extern unicode/utf8.ValidRune
+//@   pure
+//@   ensures result ==> 0 <= r && r <= 1114111
+
 //@ func CharCode
 //@   property C16
 //@   nosafety
@@ -1128,6 +1132,6 @@ package engine
 
 //@ func Between$2
 //@   property C16
-//@   requires low < high
+//@   requires low < 9223372036854775807
 //@   nosafety
 //@   at-call Between requires[continues-above-low] a1 is Integer && (a1 as Integer) == low + 1 && a2 == upper && a3 == value && a4 == k
